@@ -79,6 +79,70 @@ theorem system_first (s s' : Fine.St) (l : Fine.Lbl) (hf : Fine.fire s l = some 
 theorem wakeup_invariant_inductive (s s' : Abs.St) (l : Abs.Lbl) (h : Abs.MInv s) (hf : Abs.fire s l = some s') :
     Abs.MInv s' := Abs.inv_step s s' l h hf
 
+/-- a label that is neither a new post nor the helper's sleep stutter: a step of a thread that already exists -/
+def isInternal : Fine.Lbl → Bool
+  | .pushU _ => false
+  | .pushS _ _ => false
+  | .helperSleep => false
+  | _ => true
+
+theorem consumer_can_step (s : Fine.St) (hc : s.c ≠ .wait) : ∃ l, isInternal l = true ∧ (Fine.fire s l).isSome = true := by
+  cases hcc : s.c with
+  | wait => exact absurd hcc hc
+  | iter => exact ⟨.iterOk, rfl, by simp [Fine.fire, hcc]⟩
+  | bpcas => refine ⟨.bpCas, rfl, ?_⟩; by_cases hp : s.paused = true <;> simp [Fine.fire, hcc, hp]
+  | pops => refine ⟨.popS, rfl, ?_⟩; cases hs : s.sq <;> simp [Fine.fire, hcc, hs]
+  | lsusp => refine ⟨.lsusp, rfl, ?_⟩; by_cases hp : s.susp = true <;> simp [Fine.fire, hcc, hp]
+  | popu => refine ⟨.popU, rfl, ?_⟩; cases hs : s.uq <;> simp [Fine.fire, hcc, hs]
+  | a1 => exact ⟨.storeIdle, rfl, by simp [Fine.fire, hcc]⟩
+  | r0 => exact ⟨.loadS, rfl, by simp [Fine.fire, hcc]⟩
+  | r1 => exact ⟨.loadU, rfl, by simp [Fine.fire, hcc]⟩
+  | r2 => exact ⟨.loadP2, rfl, by simp [Fine.fire, hcc]⟩
+  | r3 =>
+    refine ⟨.decide, rfl, ?_⟩
+    by_cases hg : (s.ls > 0 ∨ (s.susp = false ∧ s.lu > 0 ∧ s.lp = false)) <;> simp [Fine.fire, hcc, hg]
+  | cl => refine ⟨.cLoadP, rfl, ?_⟩; by_cases hp : s.paused = true <;> simp [Fine.fire, hcc, hp]
+  | ck => refine ⟨.cCas, rfl, ?_⟩; by_cases hp : s.run = true <;> simp [Fine.fire, hcc, hp]
+  | cd => exact ⟨.cDisp, rfl, by simp [Fine.fire, hcc]⟩
+
+/-- **no deadlock while work is pending** ("never stalls … without needing a further post"): in every reachable
+state with deliverable work — a system message queued, or a user message queued while not suspended — some thread that
+ALREADY exists (a poster between its push and the end of `schedule()`, the pause helper, the dispatched or running
+consumer) has an enabled step.  Together with `no_lost_wakeup` (a state where no such thread exists holds no deliverable
+work) this excludes every stall; what it does not give is a bound on the number of steps (fair scheduling of the Go
+runtime and of the dispatcher is assumed, not proved). -/
+theorem pending_work_can_progress (s : Fine.St) (h : Reachable s)
+    (hw : s.sq ≠ [] ∨ (s.uq ≠ [] ∧ s.susp = false)) :
+    ∃ l, isInternal l = true ∧ (Fine.fire s l).isSome = true := by
+  by_cases hq : Abs.Quiescent (Fine.abs s)
+  · obtain ⟨h1, h2⟩ := no_lost_wakeup s h hq
+    rcases hw with hw | ⟨hu, hs⟩
+    · exact absurd h1 hw
+    · rcases h2 with h2 | h2
+      · exact absurd h2 hu
+      · rw [hs] at h2; cases h2
+  · simp only [Abs.Quiescent, Fine.abs] at hq
+    by_cases h1 : s.nUp > 0
+    · exact ⟨.incrU, rfl, by simp [Fine.fire, h1]⟩
+    by_cases h2 : s.nSp > 0
+    · exact ⟨.incrS, rfl, by simp [Fine.fire, h2]⟩
+    by_cases h3 : s.nL > 0
+    · refine ⟨.loadP, rfl, ?_⟩; by_cases hp : s.paused = true <;> simp [Fine.fire, h3, hp]
+    by_cases h4 : s.nK > 0
+    · refine ⟨.casP, rfl, ?_⟩; by_cases hr : s.run = true <;> simp [Fine.fire, h4, hr]
+    by_cases h5 : s.nD > 0
+    · exact ⟨.dispP, rfl, by simp [Fine.fire, h5]⟩
+    by_cases h6 : s.hs = true
+    · exact ⟨.helperWake, rfl, by simp [Fine.fire, h6]⟩
+    by_cases h7 : s.c = .wait
+    · have h8 : s.dq > 0 := by
+        apply Nat.pos_of_ne_zero
+        intro hd
+        apply hq
+        refine ⟨by omega, by omega, by omega, by omega, by omega, hd, by simp [h7, Fine.absPc], by simpa using h6⟩
+      exact ⟨.take, rfl, by simp [Fine.fire, h7, h8]⟩
+    · exact consumer_can_step s h7
+
 /-- non-vacuity: a reachable state with a poster parked between the consumer's
 "store idle" and its counter re-read (the narrow window), and a reachable
 quiescent state with everything delivered -/
